@@ -83,13 +83,34 @@ def serve(registry, feed, napps, processes, batches, racing=False):
                     else:
                         results[rid] = task.exception() or task.result()
         finally:
-            try:
-                await asyncio.wait_for(asyncio.get_running_loop().run_in_executor(None, engine.shutdown), timeout=30)
-            except Exception:  # pylint: disable=broad-except
-                pass
+            bounded_shutdown(engine.shutdown)
 
-    asyncio.run(main())
+    run_loop(main())
     return results
+
+
+def bounded_shutdown(shutdown, timeout=30):
+    """Shut the engine down without ever waiting for it longer than `timeout` (a daemon thread: an engine whose threads
+    are stuck must not hang the check - the unanswered requests are the verdict)."""
+    import threading
+    thread = threading.Thread(target=shutdown, daemon=True)
+    thread.start()
+    thread.join(timeout)
+
+
+def run_loop(coroutine):
+    """asyncio.run without the final join of the default executor (its threads may be stuck inside the engine)."""
+    loop = asyncio.new_event_loop()
+    try:
+        asyncio.set_event_loop(loop)
+        return loop.run_until_complete(coroutine)
+    finally:
+        asyncio.set_event_loop(None)
+        # loop.close() would be fine, loop.shutdown_default_executor() is what must be skipped
+        try:
+            loop.close()
+        except Exception:  # pylint: disable=broad-except
+            pass
 
 
 def judge(rid, app, kind, answer, directory):
